@@ -515,10 +515,28 @@ def ipaddr(ctx, rep, rule):
     prov = flow.Prov(body)
     for (bi, st, fields, vn) in flow.aggregate_inits(body, "ber::ipaddress::SnmpIpAddress"):
         ts = [prov.operand(fields[str(k)]) for k in range(4)]
-        ok = all(t[0] == "idx" and t[1] == ("arg", 1) and t[2][0] in ("const",) and t[2][1] == k or
-                 (t[0] == "idx" and t[1] == ("arg", 1) and t[2] == ("const", k)) for k, t in enumerate(ts))
-        rep.check(rule, "SnmpIpAddress::decode|octet order", ok, "(i[0], i[1], i[2], i[3])", "address built from %s" % [flow.fmt(t) for t in ts],
-                  body.loc(st["line"]), obligation=True)
+        def from_start(x):
+            # the contents themselves, or a prefix of them (`&i[..4]`, `&i[0..h.length]`, `i[..]`): element k is i[k]
+            for _ in range(6):
+                if x == ("arg", 1):
+                    return True
+                if x[0] == "call" and (x[1] or "").split("::")[-1] == "index" and len(x[2]) == 2 and x[2][1][0] == "agg" and "Range" in (x[2][1][1] or ""):
+                    rng = x[2][1]
+                    starts = [fv for fn_, fv in rng[3] if fn_ == "start"]
+                    if starts and starts[0] != ("const", 0):
+                        return False
+                    x = x[2][0]
+                    continue
+                return False
+            return False
+        shaped = all(t[0] == "idx" and t[2][0] == "const" and isinstance(t[2][1], int) and from_start(t[1]) for t in ts)
+        ok = shaped and all(t[2][1] == k for k, t in enumerate(ts))
+        if shaped or all(t[0] == "idx" and t[1] == ("arg", 1) for t in ts):
+            rep.check(rule, "SnmpIpAddress::decode|octet order", ok, "(i[0], i[1], i[2], i[3])", "address built from %s" % [flow.fmt(t) for t in ts],
+                      body.loc(st["line"]), obligation=True)
+        else:
+            rep.inconclusive(rule, "SnmpIpAddress::decode|octet order", "the four octets are not read by constant index from the contents: %s" % [flow.fmt(t)[:40] for t in ts],
+                             body.loc(st["line"]))
     fb = facts.body("ber::ipaddress::<impl std::convert::From<&ber::ipaddress::SnmpIpAddress> for std::string::String>::from")
     if fb is None:
         rep.inconclusive(rule, "SnmpIpAddress|format", "formatting function not found")
@@ -927,8 +945,30 @@ def length_forms(ctx, rep, rule):
                 elif p.endswith("Buffer::push") or p.endswith("Buffer::push_unchecked"):
                     a = parm.operand(t["args"][1])
                     arr = [x for x in flow.subterms(a) if x[0] == "agg" and x[1] == "array"]
-                    if arr:
+                    idx = [x for x in flow.subterms(a) if x[0] == "call" and (x[1] or "").split("::")[-1] == "index" and len(x[2]) == 2 and
+                           x[2][1][0] == "agg" and "Range" in (x[2][1][1] or "")]
+                    if arr and not idx:
                         wire = [f[1] for f in arr[0][3]] + wire
+                    elif arr and idx:
+                        # a part of the array: `&header[header.len() - used..]` with the bounds evaluated in this cell
+                        elems = [f[1] for f in arr[0][3]]
+                        rng = idx[0][2][1]
+
+                        def evl(t_):
+                            if (t_[0] == "call" and (t_[1] or "").split("::")[-1] == "len") or (t_[0] == "un" and t_[1] == "PtrMetadata"):
+                                return len(elems)
+                            return ev(t_)
+                        lo_, hi_ = 0, len(elems)
+                        okb = True
+                        for fn_, fv in rng[3]:
+                            v_ = cells.eval_term(fv, evl)
+                            if not isinstance(v_, int):
+                                okb = False
+                            elif fn_ == "start":
+                                lo_ = v_
+                            elif fn_ == "end":
+                                hi_ = v_ + (1 if "Inclusive" in (rng[1] or "") else 0)
+                        wire = (elems[lo_:hi_] if okb and 0 <= lo_ <= hi_ <= len(elems) else [("chunk", a)]) + wire
                     else:
                         wire = [("chunk", a)] + wire
                 if p.endswith("Buffer::ensure_size"):
@@ -955,6 +995,9 @@ def length_forms(ctx, rep, rule):
         wire, ens, unchecked = cell(a, b)
         wire = [norm(x) for x in wire]
         key = "Buffer::push_tag_len|" + name
+        if any(x[0] == "chunk" for x in wire):
+            rep.inconclusive(rule, key, "the octets are pushed as a chunk whose contents are not resolved in this cell: %s" % [flow.fmt(x)[:60] for x in wire], body.loc())
+            continue
         rep.check(rule, key, wire == want, "octets on the wire: %s" % [flow.fmt(x) for x in want],
                   "for %s the octets written are %s (wire order), X.690 8.1.3 requires %s" % (name, [flow.fmt(x) for x in wire], [flow.fmt(x) for x in want]),
                   body.loc(), obligation=True)
@@ -1071,9 +1114,11 @@ def oid_text(ctx, rep, rule):
               "fewer than two mandatory arcs (%d next() calls whose None outcome is an error)" % mandatory, body.loc(), obligation=True)
     it = facts.body("<ber::objectid::OidSubelementIterator<'_> as std::iter::Iterator>::next")
     if it is not None:
-        cl = facts.closures_of(it.path)
+        cl = [it] + facts.closures_of(it.path)
+        # the failure of parse() is mapped to an error: a map_err call, or (after normalisation) the match it stands for
         okp = any(any((callee_path(b.term) or "").endswith("str>::parse") for b in c.calls()) and
-                  any((callee_path(b.term) or "").endswith("Result::<T, E>::map_err") for b in c.calls()) for c in cl)
+                  (any((callee_path(b.term) or "").endswith("Result::<T, E>::map_err") for b in c.calls()) or
+                   any((b.term or {}).get("was_call", "").endswith("map_err") for b in c.live_blocks())) for c in cl)
         u32 = any(any("u32" in str(b.term["callee"].get("args")) for b in c.calls() if (callee_path(b.term) or "").endswith("str>::parse")) for c in cl)
         rep.check(rule, "OidSubelementIterator::next|parse", okp and u32, "each arc is parsed as u32, failures become InvalidData",
                   "arc parsing no longer reports failures / is not u32", it.loc(), obligation=True)
